@@ -6,6 +6,7 @@
 package balmon
 
 import (
+	"crypto/sha256"
 	"fmt"
 	"os"
 	"path/filepath"
@@ -304,6 +305,50 @@ func Child(seed int64, tier, stateFile string, rounds int, testnet bool) {
 			t := g.Spend([]refchain.OutPoint{src}, []refchain.Coin{c}, outs, 2, 0, nil, -1)
 			if !offer(g.Build(chainsim.BlockSpec{Parent: s.Ref.Tip, Txs: []*refchain.Tx{t}, Fees: 500}), "many-to-few") {
 				return
+			}
+		}
+		// the second life of an address: X is paid, all it holds is spent again (its index entry disappears), and the very
+		// next indexed output pays X again - no other address is touched in between (coinbases and change go to the plain
+		// OP_TRUE script, which is not indexed). X is a P2WSH address of its own, spent by showing its witness script.
+		if ck.on {
+			view := g.View(s.Ref.Tip)
+			var src refchain.OutPoint
+			found := false
+			for _, op := range g.Spendable(view, s.Ref.Tip.Height+1, true) {
+				if view[op].Value > 1000000 {
+					src, found = op, true
+					break
+				}
+			}
+			if found {
+				ws := append(append([]byte{20}, r.Bytes(20)...), 0x75, 0x51) // <20 random bytes> OP_DROP OP_TRUE
+				wh := sha256.Sum256(ws)
+				x := append([]byte{0x00, 0x20}, wh[:]...)
+				c := view[src]
+				lives := 2 + r.Intn(2)
+				t1 := g.Spend([]refchain.OutPoint{src}, []refchain.Coin{c}, []refchain.TxOut{g.OutTrue(c.Value - 40000 - 500), {Value: 40000, Script: x}}, 1, 0, nil, -1)
+				if !offer(g.Build(chainsim.BlockSpec{Parent: s.Ref.Tip, Txs: []*refchain.Tx{t1}, Fees: 500, CoinbaseKind: chainsim.KTrue}), "address-first-life") {
+					return
+				}
+				change := refchain.OutPoint{Hash: t1.TxID(), Idx: 0}
+				changeV := c.Value - 40000 - 500
+				held := refchain.OutPoint{Hash: t1.TxID(), Idx: 1}
+				heldV := uint64(40000)
+				for life := 1; life < lives; life++ {
+					// everything X holds goes (to OP_TRUE)
+					t2 := &refchain.Tx{Version: 1, In: []refchain.TxIn{{Prev: held, Sequence: 0xffffffff, Witness: [][]byte{ws}}}, Out: []refchain.TxOut{g.OutTrue(heldV - 300)}}
+					if !offer(g.Build(chainsim.BlockSpec{Parent: s.Ref.Tip, Txs: []*refchain.Tx{t2}, Fees: 300, CoinbaseKind: chainsim.KTrue}), "address-emptied") {
+						return
+					}
+					// ... and X is paid again by the next indexed output there is
+					t3 := &refchain.Tx{Version: 1, In: []refchain.TxIn{{Prev: change, Sequence: 0xffffffff}}, Out: []refchain.TxOut{g.OutTrue(changeV - 30000 - 300), {Value: 30000, Script: x}}}
+					if !offer(g.Build(chainsim.BlockSpec{Parent: s.Ref.Tip, Txs: []*refchain.Tx{t3}, Fees: 300, CoinbaseKind: chainsim.KTrue}), "address-next-life") {
+						return
+					}
+					change, changeV = refchain.OutPoint{Hash: t3.TxID(), Idx: 0}, changeV-30000-300
+					held, heldV = refchain.OutPoint{Hash: t3.TxID(), Idx: 1}, 30000
+					run.Inc("addresses_emptied_and_paid_again_at_once")
+				}
 			}
 		}
 		// spend everything spendable of one address (index entry must disappear), block by block
